@@ -169,6 +169,9 @@ func checkC18(p *Prog, r *Report) {
 	checkJoinAndWaitFor(p, r)
 	r.Assume("an authorised SSH user who runs the general CLI through the exec callback starts a new program run (maincmd.Main); its start-up code is not treated as session code")
 	r.Assume("foreign code calls only function values and interface methods it was handed; the logger/stderr writer supplied by the embedding program is concurrency-safe")
+	if r.Prop == "C18" {
+		importShared(p, r, checkC04, "C04/ONLY-PENDING", "C18/TEMP-NAMES-UNIQUE", "two sessions that receive the same path never share a temporary file: file content reaches the destination only through renameio.NewPendingFile(name, WithRoot(root)) — a randomly named file created with O_EXCL — and never through a name derived from the target (the same clause as C04/ONLY-PENDING, here as a necessary condition of non-interference between simultaneous sessions)", 2)
+	}
 	r.Uncovered("deadlock freedom and termination under every buffering/schedule (a liveness property of an interleaving: not applicable to this technique family); races inside dependencies. Only the structural necessary condition WAITFOR-NONBLOCKING is decided")
 }
 
